@@ -32,6 +32,9 @@ CHECKS = {
  "C07": dict(level="model_checking", design="4/C07",
    text="TLC enumerates every budget case (all link trees up to 4 (thorough 5) visits x requestor store {empty, full, full minus one block} x responder store {full, full minus one} x budget 1..N+2 x 8 placements: requestor/responder, global option, per-request hook, both with either one smaller); each is run on real GraphSync nodes and judged by ExchangeOracle.tla (C07OK): no budget failure when the traversal fits, otherwise exactly N link loads then a budget-exceeded error (requestor) or failure status with N metadata entries (responder).",
    note=TB + "; a missing block uses up one unit of go-ipld-prime's link budget, so a run is accepted if it satisfies the statement reading 'blocks needed' as link visits or as blocks loaded", technique="TLC enumeration of the bounded configuration space + TLC batch oracle over real executions"),
+ "C01": dict(level="model_checking", design="4/C01",
+   text="Exchange.tla with an adversarial responder (AdvInit: every script of up to 2 (thorough 3) metadata/block items over any label of the DAG or a foreign block, followed or not, genuine block attached or not) checked exhaustively by TLC for Sound. Every TLC-enumerated (tree, local store, script) case up to 3 visits is played by a raw scripted peer against the real requestor on verifnet in several delivery variants (message chunking, final status full/failed/none, forged bytes under the claimed CID), plus mutated honest transcripts of random larger trees; TLC (ExchangeOracle.tla C01OK) judges every run: every committed write hashes to its link and is the block of a visit the traversal loaded, store and deliveries stay inside the true link tree in traversal order, delivered node paths are a prefix of the reference node sequence.",
+   note=TB + "; wrong bytes under a claimed CID are exercised through the real v2 codec, which recomputes CIDs", technique="TLC exhaustive model with adversary + TLC batch oracle over real executions of all enumerated scripts"),
 }
 NA_REASON = "not built yet in this round (check under construction; see DESIGN.md section 4 for the plan)"
 def main():
